@@ -39,7 +39,7 @@ MANIFEST = {
         note=_COMMON_NOTE + " rdtsc→epoch conversion is not modelled (System clock in the harness).", ref="§5 C05, §9.1, Appendix A.2"),
     "C06": dict(
         technique="Lean 4 proof: flag-after-flush invariants on the backend model for every schedule (flag only after the Flush event was popped, own statements popped first, every sink of every logger not yet erased flushed before the flag, other threads' strictly older statements popped under C05's hypotheses, request never dropped or counted); witnesses for F6 and F12; differential correspondence + oracle at the moment flush_log returns",
-        text=_SCOPE + "Proved: C06_flag_only_after_pop, C06_flag_numbers_unique (a caller is released only by its own Flush event), C06_own_statements_first (everything the caller's thread accepted earlier was popped — hence dispatched, C03 — before its Flush statement), C06_flush_step (processing the Flush event emits flushed / fthrow+notification for every active sink and only then raises the flag; a throwing flush blocks neither the other sinks nor the flag), C06_other_threads (grace != 0, C05 premise: every record of any thread with a strictly smaller timestamp has been popped when the flag is raised; equal clock values are a tie and not claimed), C06_flush_never_dropped (dropping and blocking queues: a refused request parks for a retry with nothing counted), C06_release. Findings proved as witnesses: F6 (pinned refresh order) and F12 (sinks of a logger marked for removal were skipped by the flush: C06_removed_logger_sink_not_flushed_unrepaired / _sink_flushed for the repaired, extracted flag value). Contract over positions of the event log: C06_flush_log_contract (if the caller's Flush statement st sits in accepted = pre ++ st :: post and its flag is raised, then the flag's position n in the log is recorded, popped = pre ++ st :: more, no write of a statement of pre comes after n, and every write before n — of any thread and logger — is followed before n by a flush of its sink), C06_nothing_unflushed_at_raise (for every raised flag, flush or removal). Progress ('flush_log returns as long as the backend keeps running'): C06_flush_log_returns_committed / _committed_after_grace (a committed request: after quiet polls, at least as many as there are pending records, past the grace period, the flag is raised and resume answers done; single-event and batch mode, every soft/hard limit) and C06_flush_log_returns (a caller still in its retry loop behind a full queue, either queue type: after the drain the retry is granted — C09 end to end —, then the flag is raised and the call returns). Assumed there: the continuation is quiet (no frontend operation injected during the drain) and ReadsCommitted for the caller's context (the model's read loop leaves its reads uncommitted only when its fuel runs out, an exit the real loop does not have).",
+        text=_SCOPE + "Proved: C06_flag_only_after_pop, C06_flag_numbers_unique (a caller is released only by its own Flush event), C06_own_statements_first (everything the caller's thread accepted earlier was popped — hence dispatched, C03 — before its Flush statement), C06_flush_step (processing the Flush event emits flushed / fthrow+notification for every active sink and only then raises the flag; a throwing flush blocks neither the other sinks nor the flag), C06_other_threads (grace != 0, C05 premise: every record of any thread with a strictly smaller timestamp has been popped when the flag is raised; equal clock values are a tie and not claimed), C06_flush_never_dropped (dropping and blocking queues: a refused request parks for a retry with nothing counted), C06_release. Findings proved as witnesses: F6 (pinned refresh order) and F12 (sinks of a logger marked for removal were skipped by the flush: C06_removed_logger_sink_not_flushed_unrepaired / _sink_flushed for the repaired, extracted flag value). Contract over positions of the event log: C06_flush_log_contract (if the caller's Flush statement st sits in accepted = pre ++ st :: post and its flag is raised, then the flag's position n in the log is recorded, popped = pre ++ st :: more, no write of a statement of pre comes after n, and every write before n — of any thread and logger — is followed before n by a flush of its sink), C06_nothing_unflushed_at_raise (for every raised flag, flush or removal). Progress ('flush_log returns as long as the backend keeps running'): C06_flush_log_returns_committed / _committed_after_grace (a committed request: after quiet polls, at least as many as there are pending records, past the grace period, the flag is raised and resume answers done; single-event and batch mode, every soft/hard limit) and C06_flush_log_returns (a caller still in its retry loop behind a full queue, either queue type: after the drain the retry is granted — C09 end to end —, then the flag is raised and the call returns). Assumed there: the drain continuation itself is quiet (no frontend operation injected during it), the request fits an empty queue, the backend keeps running; the prefix schedule is arbitrary (C09_reads_committed: in every reachable state a context with nothing left to read has its reader position published).",
         note=_COMMON_NOTE, ref="§5 C06, §7 F6 F12, §9.1"),
     "C08": dict(
         technique="Lean 4 proof: accounting invariants on the backend model for every schedule (discarded + blocked = reported + pending counters; ret=1 iff appended, ret=0 iff counted; control requests retried, never counted; a reclaimed context has a zero counter under the extracted F24 flag); witnesses for F17/F24 in all flag combinations; differential correspondence on the BoundedDropping build + drop-count oracle",
